@@ -74,8 +74,8 @@ def job(j: dict) -> dict:
     drive.write_tree(root, carrier_files(j["carrier"], [pattern_text(p) for p in j["pats"]]))
     tracef = str(root.parent / "h2.ndjson")
     os.environ["THAILINT_VERIF_TRACE"] = tracef
-    target = "/".join(j["target"]) or "."
-    argv = ["magic-numbers"] + ([] if j["recursive"] else ["--no-recursive"]) + [target] + j["explicit"]
+    targets = sorted("/".join(t) or "." for t in j["target"])          # a target is a set of path arguments
+    argv = ["magic-numbers"] + ([] if j["recursive"] else ["--no-recursive"]) + targets + j["explicit"]
     r = drive.cli_json(argv, cwd=root)
     linted = set()
     if os.path.exists(tracef):
@@ -122,10 +122,10 @@ def run(chk) -> None:
         if (not quick) or i % 7 == 0:
             variants = variants + ["json", "pyproject"]
         for car in variants:
-            t = list(c["target"])
+            ts_ = [list(t) for t in c["target"]]
             skip = sorted(fpath(f) for f in c["must_skip"]
-                          if f["ext"] in ("py", "ts") and list(f["dirs"][:len(t)]) == t
-                          and (c["recursive"] or list(f["dirs"]) == t))   # in scope, skipped for cause
+                          if f["ext"] in ("py", "ts") and any(list(f["dirs"][:len(t)]) == t
+                                                             and (c["recursive"] or list(f["dirs"]) == t) for t in ts_))   # in scope, skipped for cause
             explicit = []
             if (i + len(car)) % 3 == 0 and skip:
                 explicit = [skip[(i * 7) % len(skip)], skip[(i * 13 + 5) % len(skip)]]
@@ -133,7 +133,7 @@ def run(chk) -> None:
                          "carrier": car, "explicit": explicit, "case": i,
                          "root": str(scratch_root() / f"c14-{len(jobs)}" / "proj")})
     # the universe is the union of must_lint/must_skip/dont-care of the root recursive no-pattern case
-    base = next(c for c in cases if not c["pats"] and c["recursive"] and not c["target"])
+    base = next(c for c in cases if not c["pats"] and c["recursive"] and [list(t) for t in c["target"]] == [[]])
     uni = base["must_lint"] + base["must_skip"]
     if len(uni) != 174:
         raise MachineryError(f"Collect: universe has {len(uni)} files, expected 174")
@@ -146,13 +146,13 @@ def run(chk) -> None:
         if not r_.ok:
             raise MachineryError(f"C14 job failed: {r_.error}")
         o = r_.value
-        case = {"pats": [pattern_text(p) for p in j["pats"]], "target": "/".join(j["target"]) or ".",
+        case = {"pats": [pattern_text(p) for p in j["pats"]], "target": " ".join(sorted("/".join(t) or "." for t in j["target"])),
                 "recursive": j["recursive"], "carrier": j["carrier"], "explicit": j["explicit"]}
         if o["reported"] is None:
             chk.reject({"clause": "NoOutput", "carrier": j["carrier"]}, case,
                        f"magic-numbers produced no JSON (exit {o['exit']}): {o['stderr'][-200:]}")
             continue
-        chk.count(case, nontrivial=bool(j["pats"]) or bool(j["target"]) or not j["recursive"])
+        chk.count(case, nontrivial=bool(j["pats"]) or case["target"] != "." or not j["recursive"])
         lin = [frec(p) for p in o["linted"]]
         records.append({"pats": j["pats"], "target": j["target"], "recursive": j["recursive"],
                         "linted": [x for x in lin if x and x["ext"] in CONTENT],
